@@ -30,7 +30,8 @@ REC_SIZES = [3, 1008, 1012, 2000, 12, 1012]
 NUL_TAIL = {4, 5}
 FINALS = ['close', 'exit', 'exit_exc']
 WRITERS = ['VbsWriter', 'IpmWriter']
-FILEKINDS = ['bytesio', 'file_w+b', 'file_wb']
+# 'legacy': a seekable sink in the style of older file-like classes - write() and seek() return None
+FILEKINDS = ['bytesio', 'file_w+b', 'file_wb', 'legacy']
 MAX_WRITES = 3
 MAX_FINALS = 3
 
@@ -92,6 +93,9 @@ class Run(object):
         self.path = None
         if fkind == 'bytesio':
             self.f = io.BytesIO()
+        elif fkind == 'legacy':
+            from vf import fileobjs
+            self.f = fileobjs.LegacyWriter()
         else:
             fd, self.path = tempfile.mkstemp(dir=tmpdir())
             os.close(fd)
@@ -314,7 +318,7 @@ def run(tier, seed):
                 'twice anywhere (a with statement enters before it exits; a writer may be used in a second with '
                 'block) and, between two finalisations, 300 other unrelated writers created and finalised in the same '
                 'process, for {VbsWriter, '
-                'IpmWriter} x {VBS, 1014} x {BytesIO, real file w+b, real file wb}; state key = digest of file bytes, '
+                'IpmWriter} x {VBS, 1014} x {BytesIO, real file w+b, real file wb, a sink whose write()/seek() return None}; state key = digest of file bytes, '
                 'file position, every writer and blocker attribute, lengths written, finalised?; every transition '
                 'is executed on a fresh writer rebuilt from the history. Oracle after every finalisation: reference '
                 'parser and real reader give exactly the records written and the bytes equal those after the first '
